@@ -22,9 +22,12 @@ func (node *tagAutoescapeNode) Execute(ctx *ExecutionContext, writer TemplateWri
 func tagAutoescapeParser(doc *Parser, start *Token, arguments *Parser) (INodeTag, *Error) {
 	autoescapeNode := &tagAutoescapeNode{}
 
-	wrapper, _, err := doc.WrapUntilTag("endautoescape")
+	wrapper, endargs, err := doc.WrapUntilTag("endautoescape")
 	if err != nil {
 		return nil, err
+	}
+	if endargs.Count() > 0 {
+		return nil, endargs.Error("Arguments not allowed here.", nil)
 	}
 	autoescapeNode.wrapper = wrapper
 
